@@ -233,7 +233,8 @@ func (rr *routingRun) checkDirect(p world.Probe, rd world.Reader, where string) 
 		}
 		// documented ambiguity: any direct match that relies on a capture starting with '/' is tolerated when the
 		// reference itself depends on that reading (the substitution round-trip below still applies)
-		return amb && (!withParams || leadingSlashValue(o.Params)) && o.Tag >= 0 && !o.TSR
+		// (C09's strict mode: the same holds for a slash-adjusted answer that relies on such a capture)
+		return amb && (!withParams || leadingSlashValue(o.Params)) && o.Tag >= 0 && (!o.TSR || rr.f.strictHost)
 	}
 	lk := world.ObsLookup(rd, p)
 	if !ok(lk, true) {
@@ -417,6 +418,12 @@ func (rr *routingRun) checkServeDirect(p world.Probe, where string) {
 				rr.res.inc("tolerance_host_tsr_is_c08")
 				return
 			}
+		}
+	}
+	if amb && rr.f.strictHost && obs.Kind != model.KRoute {
+		// documented ambiguity: fox stopped at a slash-adjusted candidate that relies on a capture starting with '/'
+		if lk := world.ObsLookup(rr.w.R, p); lk.Tag >= 0 && lk.TSR && leadingSlashValue(lk.Params) {
+			return
 		}
 	}
 	if !okFor(a) && !(amb && okFor(b)) && !(amb && obs.Kind == model.KRoute && leadingSlashValue(obs.Hit.Params)) {
